@@ -116,7 +116,7 @@ def gen_cases(tier: str, seed: int) -> List[Dict]:
     ]
     name_choices = [("q0",), ("q1",), ("q0", "q1"), ("q0", "q2"), ("q2", "q10"), ("q10",), ("q1", "q2", "q10"), ("q3", "q12")]
     n = 0
-    reps = 8 if quick else 120
+    reps = 8 if quick else 700
     for _ in range(reps):
         for shapes in shape_tuples:
             for fn in FUNCS:
